@@ -23,6 +23,7 @@ import (
 //        v <ver> | o <uid> <lazy> <multi> <closed> <down> <up> <frag> | c <uid> <ack> <haspkt> <seq> <datahex>
 //        y <codec letter> | z <uid> <patternhex> | r <uid> <frag>
 //   mtu <domain length> <codec> <multi 0|1>
+//   par <G> <iters> <req …|mtu …> { ; <req …|mtu …> }     the listed ops processed concurrently (c09_par.go)
 //
 // <oracle> is "-" or a comma separated table e:<hexin>=<hexout> / d:<hexin>=<hexout|!> of what the real
 // codec answered on the inputs of this very case.  The codecs are property C08's subject; the Lean model
@@ -305,6 +306,22 @@ func (dnsreqComp) run(op string, rec *[]string) (result, monitor, class string, 
 			return "mtu neg", "", "mtu-neg", false
 		}
 		return fmt.Sprintf("mtu %d", v), "", "mtu", true
+	case "par":
+		G, iters, subs, ok := splitPar(t)
+		if !ok || rec != nil {
+			return "bad-op", "", "bad-op", false
+		}
+		for _, s := range subs {
+			if strings.HasPrefix(s, "par") {
+				return "bad-op", "", "bad-op", false
+			}
+		}
+		var c dnsreqComp
+		res, mon, allOK := runPar(func(op string) (string, string) {
+			r, m, _, _ := c.run(op, nil)
+			return r, m
+		}, G, iters, subs)
+		return res, mon, fmt.Sprintf("par/n%d", (len(subs)+3)/4*4), allOK
 	case "req":
 	default:
 		return "bad-op", "", "bad-op", false
@@ -352,6 +369,12 @@ func (dnsreqComp) run(op string, rec *[]string) (result, monitor, class string, 
 		payloadLen = len(pr.Packet.Data)
 	}
 	inScope := strings.Contains(selectableUpstream, letter)
+	// a domain spelled otherwise than as plain labels (final dot, characters that need escaping, empty or over-long
+	// labels) may be refused — with an error; only "every request is emitted and decoded" is not demanded of it
+	plain := plainDomain(domain)
+	if !plain {
+		class += "/spelled"
+	}
 	if pr, ok := req.(*commands.PacketRequest); ok && pr.UserId >= 1296 {
 		inScope = false
 	}
@@ -370,7 +393,7 @@ func (dnsreqComp) run(op string, rec *[]string) (result, monitor, class string, 
 	msg, err := ser.EncodeDnsRequestWithParams(req, dnsmessage.Type(util.QueryTypeTxt), codec)
 	if err != nil {
 		mon := ""
-		if inScope && codecOK && payloadLen >= 0 {
+		if inScope && plain && codecOK && payloadLen >= 0 {
 			mtu := sdns.VerifUpstreamMtu(domain, codec, false)
 			if mtu < 1<<30 && uint32(payloadLen) <= mtu {
 				mon = fmt.Sprintf("payload of %d bytes is within the computed upstream fragment size %d but the request is rejected as too long", payloadLen, mtu)
@@ -388,7 +411,7 @@ func (dnsreqComp) run(op string, rec *[]string) (result, monitor, class string, 
 	packed, err := msg.Pack()
 	if err != nil {
 		mon := ""
-		if inScope && codecOK {
+		if inScope && plain && codecOK {
 			mon = "request does not pack into a DNS message"
 		}
 		return "pack-error", mon, class + "/pack-error", false
@@ -397,7 +420,7 @@ func (dnsreqComp) run(op string, rec *[]string) (result, monitor, class string, 
 	m2 := new(dns.Msg)
 	if err := m2.Unpack(packed); err != nil {
 		mon := ""
-		if inScope && codecOK {
+		if inScope && plain && codecOK {
 			mon = "packed request does not unpack"
 		}
 		return "unpack-error", mon, class + "/unpack-error", false
@@ -408,7 +431,7 @@ func (dnsreqComp) run(op string, rec *[]string) (result, monitor, class string, 
 	head := fmt.Sprintf("%s %d %d", nameHex, maxLabel, octets)
 	if err != nil {
 		mon := ""
-		if inScope && codecOK {
+		if inScope && plain && codecOK {
 			mon = "server fails to decode the request"
 		}
 		return "dec-error " + head, mon, class + "/dec-error", false
@@ -423,7 +446,7 @@ func (dnsreqComp) run(op string, rec *[]string) (result, monitor, class string, 
 		case octets-1 > 253:
 			monitor = fmt.Sprintf("name of %d octets", octets-1)
 		case got != sent:
-			monitor = "decoded request differs from the one sent: sent [" + sent + "] got [" + got + "]"
+			monitor = "silent difference: decoded request differs from the one sent: sent [" + sent + "] got [" + got + "]"
 		}
 	}
 	if !codecOK {
@@ -440,6 +463,73 @@ func (dnsreqComp) run(op string, rec *[]string) (result, monitor, class string, 
 
 var reqDomains = []string{
 	"a.b", "example.org", "t.example.com", "tunnel.some-longer-domain.example.co.uk",
+}
+
+// domainSpellings: the tunnel domain as an operator may write it in the configuration.  The wire paths must treat
+// every spelling consistently on both sides: the round trip is lossless or a failure is reported.
+type domainSpelling struct{ kind, domain string }
+
+func domainSpellings() []domainSpelling {
+	l63 := strings.Repeat("abcdefghi", 7)
+	return []domainSpelling{
+		{"plain", "t.example.org"},
+		{"fqdn", "t.example.org."},
+		{"fqdn", "a.b."},
+		{"fqdn", "tunnel."},
+		{"fqdn", domainOfLen(120) + "."},
+		{"fqdn", "T.Example.ORG."},
+		{"case", "T.EXAMPLE.ORG"},
+		{"case", "Tunnel.Example.Org"},
+		{"case", "tUNNEL"},
+		{"one-label", "tunnel"},
+		{"one-label", "x"},
+		{"many-labels", "a.b.c.d.e.f.g.h.i.j.k.l"},
+		{"hostchars", "_t-1.ex-ample.0rg"},
+		{"label63", l63 + ".org"},
+		{"label64", l63 + "j.org"},
+		{"long", domainOfLen(200)},
+		{"long", domainOfLen(230)},
+		{"long", domainOfLen(240)},
+		{"escape", "a@b.example.org"},
+		{"escape", "a@@b.c"},
+		{"escape", `a\.b.example.org`},
+		{"escape", `t\065st.example.org`},
+		{"escape", `\116\117\110.example.org`},
+		{"escape", `a\032b.org`},
+		{"escape", `a\255b.org`},
+		{"escape", "a(b).org"},
+		{"escape", "a;b.org"},
+		{"escape", `a"b.org`},
+		{"escape", "a'b.org"},
+		{"escape", `a\\b.org`},
+		{"escape", `\t.example.org`},
+		{"escape", `a.b\.`},
+		{"malformed", "a..b"},
+		{"malformed", ".a.b"},
+		{"malformed", "."},
+		{"malformed", "a.b.."},
+		{"malformed", `a.b\`},
+	}
+}
+
+// plainDomain: dot-separated labels of 1..63 host-name characters, no final dot — the spelling C09's theorems are
+// stated for (DomainOk).  For every other spelling a reported failure is acceptable, a silent difference is not.
+func plainDomain(d string) bool {
+	if d == "" {
+		return false
+	}
+	for _, l := range strings.Split(d, ".") {
+		if len(l) < 1 || len(l) > 63 {
+			return false
+		}
+		for i := 0; i < len(l); i++ {
+			c := l[i]
+			if !(c >= 'a' && c <= 'z' || c >= 'A' && c <= 'Z' || c >= '0' && c <= '9' || c == '-' || c == '_') {
+				return false
+			}
+		}
+	}
+	return true
 }
 
 func domainOfLen(n int) string {
@@ -655,5 +745,125 @@ func (c dnsreqComp) Gen(r *Rand, tier string, emit func(string)) {
 			f = fmt.Sprintf("c %d %d 1 %d %s", r.Intn(1296), r.Intn(65536), r.Intn(65536), hexs(stressBytes(r, ln, r.Intn(5))))
 		}
 		c.emitReq(emit, k, domain, randCache(r), f)
+	}
+	// (7) the same path for several requests at the same moment (the server's handler goroutines)
+	c.genPar(r, thorough, emit)
+	// (8) the tunnel domain as configured: every spelling x codec x command
+	for _, sp := range domainSpellings() {
+		for _, k := range codecs {
+			fs := []string{
+				"v 16909060",
+				fmt.Sprintf("c %d %d 0 0 -", r.Intn(1296), r.Intn(65536)),
+				fmt.Sprintf("c %d %d 1 %d %s", r.Intn(1296), r.Intn(65536), r.Intn(65536), hexs(stressBytes(r, 1+r.Intn(8), 0))),
+				fmt.Sprintf("c %d %d 1 %d %s", r.Intn(1296), r.Intn(65536), r.Intn(65536), hexs(stressBytes(r, 30+r.Intn(30), r.Intn(2)))),
+				fmt.Sprintf("o %d t f n %s %s 1200", r.Intn(1296), k, k),
+				fmt.Sprintf("r %d %d", r.Intn(1296), 100+r.Intn(1100)),
+				fmt.Sprintf("z %d %s", r.Intn(1296), hexs([]byte(base36[:8+r.Intn(28)]))),
+				"y " + k,
+			}
+			if thorough {
+				for _, n := range []int{0, 2, 3, 4, 5, 10, 20, 57, 80, 120} {
+					fs = append(fs, fmt.Sprintf("c %d %d 1 %d %s", r.Intn(1296), r.Intn(65536), r.Intn(65536), hexs(stressBytes(r, n, r.Intn(5)))))
+				}
+			}
+			for _, f := range fs {
+				c.emitReq(emit, k, sp.domain, randCache(r), f)
+			}
+		}
+	}
+}
+
+// genPar: batches of requests processed concurrently.  What varies between the members of a batch is what a shared
+// piece of state would mix up: the user (id, ack, seq, payload — equal lengths, so that a foreign buffer still
+// decodes into a well-formed request, and different lengths), the codec, the command, the domain.
+func (c dnsreqComp) genPar(r *Rand, thorough bool, emit func(string)) {
+	codecs := []string{"T", "S", "U", "W", "X", "V"}
+	tri := []string{"n", "t", "f"}
+	letters := []string{"_", "T", "S", "U", "W", "X", "V", "R", "Y"}
+	G, iters, rounds := 24, 40, 1
+	if thorough {
+		G, iters, rounds = 48, 120, 4
+	}
+	mtuOf := func(k, domain string) int {
+		e, _ := codecOf(k, nil)
+		m := int(sdns.VerifUpstreamMtu(domain, e, false))
+		if m > 1<<20 {
+			m = 0
+		}
+		return m
+	}
+	packet := func(k, domain string, n int) string {
+		return fmt.Sprintf("req %s %s %s - c %d %d 1 %d %s", k, domain, randCache(r), r.Intn(1296), r.Intn(65536), r.Intn(65536),
+			hexs(stressBytes(r, n, r.Intn(2))))
+	}
+	other := func(k, domain string) string {
+		var f string
+		switch r.Intn(6) {
+		case 0:
+			f = fmt.Sprintf("v %d", r.Next()&0xFFFFFFFF)
+		case 1:
+			f = fmt.Sprintf("o %d %s %s %s %s %s %d", r.Intn(1296), tri[r.Intn(3)], tri[r.Intn(3)], tri[r.Intn(3)],
+				letters[r.Intn(len(letters))], letters[r.Intn(len(letters))], r.Intn(70000))
+		case 2:
+			f = "y " + letters[1+r.Intn(len(letters)-1)]
+		case 3:
+			f = fmt.Sprintf("r %d %d", r.Intn(1296), r.Next()&0xFFFFFFFF)
+		case 4:
+			f = fmt.Sprintf("z %d %s", r.Intn(1296), hexs([]byte(base36[:10+r.Intn(26)])))
+		default:
+			f = fmt.Sprintf("c %d %d 0 0 -", r.Intn(1296), r.Intn(65536))
+		}
+		return fmt.Sprintf("req %s %s %s - %s", k, domain, randCache(r), f)
+	}
+	batch := func(members []string) {
+		emit(fmt.Sprintf("par %d %d %s", G, iters, strings.Join(members, " "+parSep+" ")))
+	}
+	domains := append([]string{}, reqDomains...)
+	domains = append(domains, domainOfLen(100), domainOfLen(200))
+	for round := 0; round < rounds; round++ {
+		// one codec, several users
+		for _, k := range codecs {
+			domain := domains[r.Intn(len(domains))]
+			mtu := mtuOf(k, domain)
+			for _, equal := range []bool{true, false} {
+				n := 1 + r.Intn(mtu+1)
+				var ms []string
+				for j := 0; j < 8; j++ {
+					if !equal {
+						n = r.Intn(mtu + 1)
+					}
+					ms = append(ms, packet(k, domain, n))
+				}
+				if !equal { // a retransmission of the first user's request, and a poll
+					ms[6] = ms[0]
+					ms[7] = other(k, domain)
+				}
+				batch(ms)
+			}
+		}
+		// everything mixed: codecs, commands, domains
+		for b := 0; b < 8; b++ {
+			var ms []string
+			for j := 0; j < 12; j++ {
+				k := codecs[(b+j)%len(codecs)]
+				if b%4 == 3 && j%2 == 0 {
+					k = "V" // every other member Base128 next to the rest
+				}
+				domain := domains[r.Intn(len(domains))]
+				if b%2 == 0 {
+					domain = domains[b/2%len(domains)]
+				}
+				if j%3 == 2 {
+					ms = append(ms, other(k, domain))
+				} else {
+					ms = append(ms, packet(k, domain, r.Intn(mtuOf(k, domain)+3)))
+				}
+			}
+			if b == 7 { // registry codecs that are not selectable share the registry too
+				ms[1] = packet("R", "example.org", 20)
+				ms[3] = fmt.Sprintf("mtu %d V 0", r.Intn(200))
+			}
+			batch(ms)
+		}
 	}
 }
